@@ -25,8 +25,8 @@ def where_of(clause, ctx):
         cls, c, surf, inout, batch, iface, kd, dev = ctx
         return {"class": cls, "point": c, "surface": surf, "inout": inout, "batch": batch, "iface": iface,
                 "kappa": "id" if kd == 100 else kd, "dev": dev}
-    cls, c, via, attr, dec, dev = ctx
-    return {"class": cls, "point": c, "via": via, "attr": attr, "mag_dec": dec, "dev": dev}
+    cls, c, via, attr, dec, dev, outcome, flt, seq = ctx
+    return {"class": cls, "point": c, "via": via, "attr": attr, "mag_dec": dec, "dev": dev, "outcome": outcome, "filter": flt, "sequence": seq}
 
 
 def find_obs(files, tids):
@@ -76,10 +76,26 @@ def run():
     mach = [r for r in rejects if r[3] == "MACHINERY"]
     if mach:
         raise MachineryError(f"false premise in {len(mach)} law instances, e.g. {mach[0]}")
-    cells = set()
+    cells, joint, assign = set(), set(), set()
     for inf in infos:
         if inf[1] == "cells":
             cells |= {tuple(c) for c in inf[2]}
+        elif inf[1] == "joint":
+            joint |= {tuple(c) for c in inf[2]}
+        elif inf[1] == "assign":
+            assign |= {tuple(c) for c in inf[2]}
+    # every pair of different-but-similar meshes must have been observed where the two bodies differ, in both orders
+    for a, b, _ in drv.TWINS:
+        for x, y in ((a, b), (b, a)):
+            pair = "+".join(n.split("_", 1)[1] for n in (x, y))
+            if not any(j[0] == pair and j[1].startswith("joint") and {j[2], j[3]} == {"in", "out"} for j in joint):
+                raise MachineryError(f"jointly evaluated meshes {pair}: no observer strictly inside one body and strictly outside the other")
+    # the assignment sequences must have reached the library's warning, recorded and escalated
+    if not any(a[3] == "warned" and a[4] == "default" for a in assign) or not any(a[3] == "raised" and a[4] == "error" for a in assign):
+        raise MachineryError(f"attribute law: no assignment ended with a warning / with a warning raised as error: {sorted(assign)[:6]}")
+    rep.set("joint_mesh_pairs", len({j[0] for j in joint}))
+    rep.set("joint_classes", sorted({f"{j[0]}:{j[2]}/{j[3]}" for j in joint if j[1].startswith("joint")})[:60])
+    rep.set("assignment_outcomes", sorted({f"{a[1]}:{a[2]}:{a[3]}:{a[4]}" for a in assign}))
     nontrivial = {c for c in cells}
     rep.set("evaluations", nev)
     rep.set("observations", nobs)
@@ -88,13 +104,13 @@ def run():
     rep.set("rule", "distinct (class, pose index, exact point class in/on/out, boundary stratum, in_out, kappa decade) cells computed by TLC from the logged scenes")
     rep.set("cells_on_boundary", len({c for c in cells if c[2] == "on"}))
     rep.set("classes", sorted({c[0] for c in cells}))
-    rep.set("jobs", {k: sum(1 for j in jobs if j["kind"] == k) for k in ("field", "multi", "attr")})
+    rep.set("jobs", {k: sum(1 for j in jobs if j["kind"] == k) for k in ("field", "multi", "joint", "attr")})
     det = find_obs(files, [r[1] for r in rejects][:4000]) if rejects else {}
     for r in rejects:
         _, tid, clause, prop, ctx = r[:5]
         w = where_of(clause, ctx)
         what = f"{w['class']} {clause} at a point classified '{w['point']}'" + (f" ({w['surface']})" if w.get("surface", "-") != "-" else "") + \
-               (f", in_out={w['inout']}, batch={w['batch']}, {w['iface']} interface, kappa={w['kappa']}" if "batch" in w else f", {w['attr']} assigned via {w['via']} at 1e{w['mag_dec']}") + \
+               (f", in_out={w['inout']}, batch={w['batch']}, {w['iface']} interface, kappa={w['kappa']}" if "batch" in w else f", {w['attr']} assigned via {w['via']} at 1e{w['mag_dec']} (outcome {w['outcome']}, warning filter {w['filter']})") + \
                f", deviation 1e{w['dev'] - 12} of the gross scale"
         rep.reject(clause, w, what, det.get(tid, {"tid": tid}), prop=prop)
     # samples: a few accepted observations
